@@ -439,6 +439,38 @@ def memorize_contracts():
     return cs
 
 
+def join_contracts():
+    """join streams its outer (receiver) side: the k-th result is produced by
+    the row pulled last, nothing is pulled ahead; each result is the selector
+    applied to that row and some row of the inner side that satisfies the
+    predicate."""
+    cs = []
+    INV = ['forall(range(0, len(out)), lambda k: 1 <= pulls[k] and '
+           'pulls[k] <= %s)',
+           'forall(range(1, len(out)), lambda k: pulls[k - 1] <= pulls[k])',
+           'forall(range(0, len(out)), lambda k: exists(range(0, '
+           'len(collection2)), lambda j: out[k] == selector(SRC.seq['
+           'pulls[k] - 1], collection2[j]) and truthy(predicate(SRC.seq['
+           'pulls[k] - 1], collection2[j]))))']
+    cs.append(Contract(
+        Q + 'join', name='queries.join/streams-outer-side',
+        params=dict(engine=TVal, collection1=TIter(TVal),
+                    collection2=TSeq(TVal), predicate=TFunc(2),
+                    selector=TFunc(2)),
+        track_pulls='collection1',
+        ensures=[i % 'len(SRC.seq)' if '%s' in i else i for i in INV] + [
+            'SRC.pos == len(SRC.seq)'],
+        loops=[dict(anchor='for self_item in collection1', index='n',
+                    invariant=['SRC.pos == n'] + [
+                        i % 'n' if '%s' in i else i for i in INV]),
+               dict(anchor='for other_item in collection2', index='m',
+                    invariant=['SRC.pos >= 1', 'self_item == SRC.seq['
+                               'SRC.pos - 1]'] + [
+                        i % 'SRC.pos' if '%s' in i else i for i in INV])],
+        serves=('C11', 'C13', 'C14'), native=False))
+    return cs
+
+
 def setup_mem(world):
     setup(world)
     world.callee_contract('yaql.language.utils.limit_memory_usage')
